@@ -324,7 +324,8 @@ class CoxeterGroup:
             except KeyError:
                 return False
 
-        for index in zip(*np.nonzero(self.coxeter_matrix < 0)):
+        # an infinite order may be given as zero or as a negative number
+        for index in zip(*np.nonzero(self.coxeter_matrix <= 0)):
             if specified(index):
                 cartan[index] = parameters[index]
                 r_index = index[::-1]
